@@ -62,6 +62,19 @@ class P(Prop):
             kk = [[C.bits(a), C.bits(b)] for a, b in ks]
             out.append(dict(op="spline", knots=kk, meta={"class": "spline/huge"}))
             out.append(dict(op="linear", knots=kk, meta={"class": "linear/huge"}))
+        # integration through an anchor at which the antiderivative overflows (or is inf - inf): the result has non-finite numbers,
+        # it is not a panic
+        from props import kernels as K_
+        for k in range(8):
+            for _ in range(2 if tier == "quick" else 20):
+                cs = [rng.choice([1.0, -2.0, 1e300, -3e299, 1e150, 0.0]) for _ in range(k + 1)]
+                kn = [rng.choice([1e80, -1e80, 1e10, 1e300, 2.0, -1e155]), rng.choice([0.0, 1e300, -5.0])]
+                out.append(K_.kernel_case("Poly%d::integral" % k, cs + kn, cls="integral/overflow_at_anchor"))
+                out.append(dict(op="pw_integral_all", ty="Poly%d" % k, segs=[[C.bits(rng.choice([1e10, 1e80, 5.0]))] + [C.bits(c) for c in cs],
+                                                                           [C.bits(1e90)] + [C.bits(c) for c in cs]],
+                                knot=[C.bits(kn[0]), C.bits(kn[1])], meta={"class": "pw_integral/overflow_at_anchor"}))
+        out.append(dict(op="spline", knots=[[C.bits(0.0), C.bits(0.0)], [C.bits(1e80), C.bits(1e300)], [C.bits(2e80), C.bits(-1e300)], [C.bits(3e80), C.bits(1e300)]],
+                        meta={"class": "spline/huge"}))
         for ty in ("Poly0",):
             out.append(dict(op="pw_eval", ty=ty, segs=[], xs=[0], meta={"class": "empty"}))
             out.append(dict(op="evaluator", ty=ty, segs=[], xs=[0], meta={"class": "empty"}))
@@ -89,6 +102,9 @@ class P(Prop):
             return self.c15.coq_term(case, h)
         if op == "polyn_translate":
             return "run_polyn_translate %s %d" % (C.zlist(case["cs"]), case["s"])
+        if op == "k":
+            from props import kernels as K_
+            return K_.kernel_term(case, h)
         if op == "linear":
             return "run_linear [] [] %s %s" % (C.kname("linear::incr_linear"), C.zlistlist(case["knots"]))
         if op == "spline":
@@ -120,6 +136,9 @@ class P(Prop):
                 return "%s panicked on %d well-formed knots: %s" % (op, len(case["knots"]), h.get("msg"))
             if h["r"][0] != len(case["knots"]) - 1:
                 return "%s returned %d segments for %d knots" % (op, h["r"][0], len(case["knots"]))
+            return None
+        if op in ("k", "pw_integral_all", "pw_merge_eval") and h["r"] == "PANIC":
+            return "%s %s panicked on well-formed finite input: %s" % (op, case.get("name") or case.get("ty") or "", h.get("msg"))
         return None
 
     def nontrivial_key(self, case, h):
